@@ -28,8 +28,16 @@ def launched(n_inputs, n_nodes, n_cores, trials, jobs=None, delete_existing=Fals
     err = None
     with tempfile.TemporaryDirectory() as d:
         os.makedirs(os.path.join(d, 'inputs'))
+        # real specifications in the three forms read_input_json accepts: one ranges dict, a list of ranges dicts, explicit runs
+        rg = {'label': 'c14', 'code': {'name': 'Toric2DCode', 'parameters': [{'L_x': 2, 'L_y': 2}, {'L_x': 3, 'L_y': 3}]},
+              'error_model': {'name': 'PauliErrorModel', 'parameters': {'r_x': 0.25, 'r_y': 0.25, 'r_z': 0.5}},
+              'decoder': {'name': 'MatchingDecoder', 'parameters': {}}, 'error_rate': [0.1, 0.2]}
+        run = {'label': 'c14', 'code': {'name': 'Toric2DCode', 'parameters': {'L_x': 2, 'L_y': 2}},
+               'error_model': {'name': 'PauliErrorModel', 'parameters': {'r_x': 0.25, 'r_y': 0.25, 'r_z': 0.5}},
+               'decoder': {'name': 'MatchingDecoder', 'parameters': {}}, 'error_rate': 0.1}
+        forms = [{'ranges': rg}, {'ranges': [rg, dict(rg, error_rate=[0.3])]}, {'runs': [run, dict(run, error_rate=0.2)]}]
         for i in range(n_inputs):
-            open(os.path.join(d, 'inputs', 'in_%04d.json' % i), 'w').write('{}')
+            json.dump(forms[i % 3], open(os.path.join(d, 'inputs', 'in_%04d.json' % i), 'w'))
         old = (multiprocessing.Process, multiprocessing.cpu_count, cli.glob)
         multiprocessing.Process, multiprocessing.cpu_count = FakeProc, (lambda: 4096)
         cli.glob = lambda pat: sorted(old[2](pat))
